@@ -384,7 +384,7 @@ func (cw *c05World) drain(s *refSess, where string) *Failure {
 
 // nextRootsRequest waits for the roots/list request frame on a session's stream and returns its id.
 func (cw *c05World) nextRootsRequest(s *refSess) (string, bool) {
-	deadline := time.Now().Add(Bound() * 8)
+	deadline := time.Now().Add(Patience())
 	for time.Now().Before(deadline) {
 		if s.stdio != nil {
 			all, _ := SplitStdioLines(s.stdio.out.Bytes())
@@ -488,11 +488,11 @@ func (cw *c05World) roots(op C05Op, s *refSess, nonce, where string) *Failure {
 		select {
 		case r := <-resCh:
 			text = r.text
-		case <-time.After(Bound() * 12):
+		case <-time.After(Patience()):
 			return TimingFailf("C05/roots-call-stuck", "%s: the tool call that issued roots/list did not return", where)
 		}
 	default:
-		deadline := time.Now().Add(Bound() * 12)
+		deadline := time.Now().Add(Patience())
 		want := fmt.Sprintf(`"call-%s"`, nonce)
 		for text == "" && time.Now().Before(deadline) {
 			var frames [][]byte
@@ -602,10 +602,10 @@ func (cw *c05World) rootsPair(op C05Op, a, b *refSess, nonce, where string) *Fai
 		if c.Kind == 0 {
 			select {
 			case text = <-p.ch:
-			case <-time.After(Bound() * 12):
+			case <-time.After(Patience()):
 			}
 		} else {
-			deadline := time.Now().Add(Bound() * 12)
+			deadline := time.Now().Add(Patience())
 			want := fmt.Sprintf(`"call-%s"`, p.tag)
 			for text == "" && time.Now().Before(deadline) {
 				for _, e := range p.s.stream.Events() {
